@@ -212,21 +212,87 @@ func (m *Model) RunErrLine(s *Sink, rule string) {
 	if pne != nil {
 		if node := m.CG.Nodes[pne]; node != nil {
 			n := 0
+			// a site: the call, the token whose ErrorLine() is the line, and the message arguments. A wrapper of the
+			// parser that takes the offending token and forwards message and arguments (`errorAt(tok, msg, args...)`:
+			// `p.newError(tok.ErrorLine(), msg, args...)`) is looked through: its call sites are the sites.
+			type errSite struct {
+				caller  *ssa.Function
+				call    *ssa.Call
+				lineTok ssa.Value // nil: the line is not an ErrorLine() of a token
+				lineArg ssa.Value
+				args    ssa.Value
+			}
+			var sites []errSite
 			for _, e := range node.In {
 				c, ok := e.Site.(*ssa.Call)
 				if !ok || isSynthetic(e.Caller.Func) {
 					continue // promoted-method wrappers forward their arguments
 				}
+				st := errSite{caller: e.Caller.Func, call: c, lineArg: c.Call.Args[1]}
+				if len(c.Call.Args) > 3 {
+					st.args = c.Call.Args[3]
+				}
+				if lc, isCall := c.Call.Args[1].(*ssa.Call); isCall && lc.Call.StaticCallee() == errorLine {
+					st.lineTok = lc.Call.Args[0]
+				}
+				// wrapper?
+				w := e.Caller.Func
+				tokIdx, argIdx := -1, -1
+				if st.lineTok != nil {
+					root, pth, okP := pathOf(st.lineTok)
+					if al, isAl := st.lineTok.(*ssa.Alloc); isAl {
+						// a token parameter spilled to a local so that its address can be taken
+						for _, r := range *al.Referrers() {
+							if sto, isSt := r.(*ssa.Store); isSt && sto.Addr == ssa.Value(al) {
+								root, pth, okP = sto.Val, "", true
+							}
+						}
+					}
+					if par, isPar := root.(*ssa.Parameter); isPar && okP && (pth == "" || pth == "&") {
+						for k, q := range w.Params {
+							if q == par {
+								tokIdx = k
+							}
+						}
+					}
+				}
+				if par, isPar := st.args.(*ssa.Parameter); isPar {
+					for k, q := range w.Params {
+						if q == par {
+							argIdx = k
+						}
+					}
+				}
+				wn := m.CG.Nodes[w]
+				if tokIdx >= 0 && argIdx >= 0 && wn != nil && len(wn.In) > 0 && shortPkg(fnPkgPath(w)) == "parser" {
+					expanded := true
+					var sub []errSite
+					for _, we := range wn.In {
+						wc, isC := we.Site.(*ssa.Call)
+						if !isC || wc.Call.StaticCallee() != w || tokIdx >= len(wc.Call.Args) || argIdx >= len(wc.Call.Args) {
+							expanded = false
+							break
+						}
+						sub = append(sub, errSite{caller: we.Caller.Func, call: wc, lineTok: wc.Call.Args[tokIdx], lineArg: wc.Call.Args[tokIdx], args: wc.Call.Args[argIdx]})
+					}
+					if expanded {
+						sites = append(sites, sub...)
+						continue
+					}
+				}
+				sites = append(sites, st)
+			}
+			for _, st := range sites {
+				c := st.call
 				n++
-				key := fmt.Sprintf("%s|parser error line #%d", fnKey(e.Caller.Func), n)
-				lc, isCall := c.Call.Args[1].(*ssa.Call)
-				if isCall && lc.Call.StaticCallee() == errorLine {
-					_, p, _ := pathOf(lc.Call.Args[0])
+				key := fmt.Sprintf("%s|parser error line #%d", fnKey(st.caller), n)
+				if st.lineTok != nil {
+					_, p, _ := pathOf(st.lineTok)
 					lineTok := strings.TrimSuffix(strings.TrimPrefix(p, "."), "&")
 					// the token the message talks about ("got X") is the offending one: the line must be that token's
 					named := map[string]bool{}
-					if len(c.Call.Args) > 3 {
-						for _, el := range variadicElems(c.Call.Args[3]) {
+					if st.args != nil {
+						for _, el := range variadicElems(st.args) {
 							tokensNamedBy(el, 0, named)
 						}
 					}
@@ -236,12 +302,12 @@ func (m *Model) RunErrLine(s *Sink, rule string) {
 							other = append(other, k)
 						}
 						sort.Strings(other)
-						s.Violation(rule, key, m.InstrPos(c), "%s reports an error about p.%s (its type or text is put into the message) but takes the line from p.%s: when the two tokens are on different lines the error names the wrong line", fnKey(e.Caller.Func), strings.Join(other, "/"), lineTok)
+						s.Violation(rule, key, m.InstrPos(c), "%s reports an error about p.%s (its type or text is put into the message) but takes the line from p.%s: when the two tokens are on different lines the error names the wrong line", fnKey(st.caller), strings.Join(other, "/"), lineTok)
 						continue
 					}
 					s.OK(rule, key, m.InstrPos(c), "line = ErrorLine() of %s", lineTok)
 				} else {
-					s.Violation(rule, key, m.InstrPos(c), "%s records a parser error whose line is %s instead of the ErrorLine() of the offending token", fnKey(e.Caller.Func), valueDesc(c.Call.Args[1]))
+					s.Violation(rule, key, m.InstrPos(c), "%s records a parser error whose line is %s instead of the ErrorLine() of the offending token", fnKey(st.caller), valueDesc(st.lineArg))
 				}
 			}
 			if n < 10 {
